@@ -386,4 +386,11 @@ def scope_world(rng) -> World:
     u = w.add_lexicon('u', '1', lang='fr', requires=rng.choice([[], ['a:1'], ['a:2']]))
     fill_lexicon(w, u, rng, rng.randint(2, 3), rng.randint(1, 2), ilis)
     add_relations(w, u, rng, rng.randint(0, 2), 0, 0)
+    # adjectives and adjective satellites in every lexicon (taxonomy functions merge the two
+    # classes: the complementary class must come from the selection too)
+    r2 = random.Random(rng.getrandbits(32))
+    if r2.random() < 0.6:
+        for y in w.synsets:
+            if r2.random() < 0.35:
+                y[2] = r2.choice(['a', 's'])
     return w
